@@ -30,6 +30,13 @@ pub fn run_a_star(
         return Ok(SearchResult::default());
     }
 
+    #[cfg(feature = "verif_hooks")]
+    crate::verif::emit(crate::verif::Event::SearchStart {
+        source: source.0,
+        target: target.map(|t| t.0),
+        reverse: matches!(direction, Direction::Reverse),
+    });
+
     // context for the search (graph, search functions, frontier priority queue)
     let mut costs: InternalPriorityQueue<VertexId, ReverseCost> = InternalPriorityQueue::default();
     let mut traversal_costs: HashMap<VertexId, Cost> = HashMap::new();
@@ -51,6 +58,11 @@ pub fn run_a_star(
     let mut iterations = 0;
 
     loop {
+        #[cfg(feature = "verif_hooks")]
+        crate::verif::emit(crate::verif::Event::LoopTop {
+            iterations,
+            tree_len: solution.len(),
+        });
         si.termination_model
             .test(&start_time, solution.len(), iterations)?;
 
@@ -59,6 +71,14 @@ pub fn run_a_star(
             Some(id) => id,
         };
 
+        #[cfg(feature = "verif_hooks")]
+        crate::verif::emit(crate::verif::Event::Pop {
+            vertex: current_vertex_id.0,
+            g: traversal_costs
+                .get(&current_vertex_id)
+                .map(|c| c.as_f64())
+                .unwrap_or(f64::NAN),
+        });
         let last_edge_id = get_last_traversed_edge_id(&current_vertex_id, &source, &solution)?;
         let last_edge = match last_edge_id {
             Some(id) => Some(si.directed_graph.get_edge(&id)?),
@@ -94,6 +114,8 @@ pub fn run_a_star(
                 si.frontier_model
                     .valid_frontier(e, &current_state, last_edge, &si.state_model)?;
             if !valid_frontier {
+                #[cfg(feature = "verif_hooks")]
+                crate::verif::emit(crate::verif::Event::FrontierReject { edge: edge_id.0 });
                 continue;
             }
             let et =
@@ -107,6 +129,16 @@ pub fn run_a_star(
                 .get(&key_vertex_id)
                 .unwrap_or(&Cost::INFINITY)
                 .to_owned();
+            #[cfg(feature = "verif_hooks")]
+            crate::verif::emit(crate::verif::Event::Relax {
+                edge: edge_id.0,
+                key_vertex: key_vertex_id.0,
+                terminal_vertex: terminal_vertex_id.0,
+                edge_cost: et.total_cost().as_f64(),
+                tentative: tentative_gscore.as_f64(),
+                existing: existing_gscore.as_f64(),
+                accepted: tentative_gscore < existing_gscore,
+            });
             if tentative_gscore < existing_gscore {
                 traversal_costs.insert(key_vertex_id, tentative_gscore);
 
@@ -169,6 +201,12 @@ pub fn run_a_star(
         .unwrap();
         flamegraph_file.write_all(output.as_bytes()).unwrap();
     }
+
+    #[cfg(feature = "verif_hooks")]
+    crate::verif::emit(crate::verif::Event::SearchEnd {
+        iterations,
+        tree_len: solution.len(),
+    });
 
     let result = SearchResult::new(solution, iterations);
     Ok(result)
